@@ -10,6 +10,7 @@
 From Coq Require Import List Arith ZArith Bool.
 Import ListNotations.
 Require Import MD.Traj.Model MD.Traj.Lists MD.Traj.Proofs MD.Traj.NoSharing MD.Traj.Flow MD.Traj.FlowProofs.
+Require Import MD.Traj.Extra MD.Traj.ExtraProofs.
 
 (* ---- numpy index semantics used by the specifications *)
 Theorem key_positions_in_range : forall n k idx s,
@@ -295,3 +296,95 @@ Example guarded_history_exists :
   snd (run v_fix (init_world specs1) ops_demo) = [ROk; ROk; ROk; ROk; ROk; ROk; ROk; ROk; ROk; ROk; ROk].
 Proof. exact demo_guards. Qed.
 Print Assumptions guarded_history_exists.
+
+(* ================================================================== second layer (MD.Traj.Extra / ExtraProofs)
+   restrict_atoms, make_molecules_whole / image_molecules, smooth, and analysis / save calls as operations of the
+   history.  What the imaging and filter kernels compute is NOT modelled (their result is a fresh opaque data source);
+   the theorems are about the bookkeeping: which memory is written, what happens to the cache, what is shared. *)
+
+(* ---- every history over the extended alphabet keeps the world well formed *)
+Theorem xwf_inv : forall v xv sps ops, wf (fst (xrun v xv (init_world sps) ops)).
+Proof. exact xrun_wf_init. Qed.
+Print Assumptions xwf_inv.
+
+(* ---- the extended run restricted to the base alphabet is the run the theorems above speak about *)
+Theorem xrun_extends_run : forall v xv ops w, xrun v xv w (map XBase ops) = run v w ops.
+Proof. exact xrun_base. Qed.
+Print Assumptions xrun_extends_run.
+
+(* ---- the cache invariant over the extended alphabet, imaging methods repaired (result._rmsd_traces = None after the
+        kernel): after EVERY finite history of base operations, restrict_atoms, make_molecules_whole / image_molecules
+        (inplace False and True), smooth (inplace False and True) and observers, from any initial trajectories, every
+        _rmsd_traces is absent or equals frame by frame the trace of the current centred frame.  Guard: as for cache_inv;
+        an imaging call with inplace=True is an in-place write like center_coordinates, the copying form needs nothing *)
+Theorem xcache_inv : forall sps ops,
+  xguarded v_fix xv_fix (init_world sps) ops = true -> cinv (fst (xrun v_fix xv_fix (init_world sps) ops)).
+Proof. exact xrun_cinv_init. Qed.
+Print Assumptions xcache_inv.
+
+Theorem xcache_inv_from : forall ops w,
+  wf w -> cinv w -> xguarded v_fix xv_fix w ops = true -> cinv (fst (xrun v_fix xv_fix w ops)).
+Proof. exact xrun_cinv. Qed.
+Print Assumptions xcache_inv_from.
+
+Example extended_guarded_history_exists :
+  xguarded v_fix xv_fix (init_world specs_img) xops_demo = true /\
+  snd (xrun v_fix xv_fix (init_world specs_img) xops_demo) = map (fun _ => ROk) xops_demo.
+Proof. exact xdemo_guards. Qed.
+Print Assumptions extended_guarded_history_exists.
+
+(* ---- the code as found: both imaging methods leave the cache behind *)
+Theorem xcache_inv_imaging_inplace_as_found_refuted :
+  xguarded v_fix xv_cur (init_world specs_img) [XBase (OCenter 0 false); XImage 0 true] = true /\
+  xcinvb (fst (xrun v_fix xv_cur (init_world specs_img) [XBase (OCenter 0 false); XImage 0 true])) = false.
+Proof. exact imaging_inplace_as_found_refuted. Qed.
+Print Assumptions xcache_inv_imaging_inplace_as_found_refuted.
+
+Theorem xcache_inv_imaging_copy_as_found_refuted :
+  xguarded v_fix xv_cur (init_world specs_img) [XBase (OCenter 0 false); XImage 0 false] = true /\
+  let w := fst (xrun v_fix xv_cur (init_world specs_img) [XBase (OCenter 0 false); XImage 0 false]) in
+  map (cache_ok w) (trajs w) = [true; false].
+Proof. exact imaging_copy_as_found_refuted. Qed.
+Print Assumptions xcache_inv_imaging_copy_as_found_refuted.
+
+(* ---- make_molecules_whole(inplace=False) / image_molecules(inplace=False): the returned trajectory has no array
+        buffer and no topology identity in common with any existing trajectory (it is self[:] before the kernel runs) *)
+Theorem imaging_copy_shares_nothing : forall v xv w r w',
+  wf w -> do_image v xv w r false = (w', ROk) ->
+  exists t', trajs w' = trajs w ++ [t'] /\ forall t, In t (trajs w) -> independent t t'.
+Proof. exact image_copy_independent. Qed.
+Print Assumptions imaging_copy_shares_nothing.
+
+(* ---- smooth(inplace=False): fresh coordinates, no cache, equal field lengths -- but the time array and the topology
+        object ARE the source's (and the cell arrays unless ensure_type copied them): stated, not forbidden by C03, whose
+        no-sharing clause lists slicing, joining and atom subsetting *)
+Theorem smooth_copy_spec : forall w r t w',
+  wf w -> nth_error (trajs w) r = Some t -> do_smooth w r false = (w', ROk) ->
+  exists t',
+    trajs w' = trajs w ++ [t'] /\ hext w w' /\
+    frames w' t' = opaque_frames (nsrc w) (nframes t) (na t) /\
+    tm t' = tm t /\ tloc t' = tloc t /\ cell_passed w (ul t) (ul t') /\ cell_passed w (ua t) (ua t') /\
+    na t' = na t /\ chains t' = chains t /\ tr t' = None /\ lengths_ok t' = true /\ reg_ok w' t' /\
+    length (hx w) <= xb t'.
+Proof. exact smooth_copy_ok. Qed.
+Print Assumptions smooth_copy_spec.
+
+(* ---- analysis and save calls are observers of the model: they leave the whole world as it is.  (That the REAL
+        functions are observers is what the runs test: hashes of every trajectory object before and after.) *)
+Theorem observers_leave_the_world_identical : forall v xv w o, is_observer o = true -> fst (xstep v xv w o) = w.
+Proof. exact observers_change_nothing. Qed.
+Print Assumptions observers_leave_the_world_identical.
+
+(* ---- restrict_atoms is atom_slice (same in-place flag): every theorem about atom_slice applies *)
+Theorem restrict_atoms_delegates : forall v xv w r idx ip,
+  xstep v xv w (XRestrictAtoms r idx ip) = xstep v xv w (XBase (OAtomSlice r idx ip)).
+Proof. exact restrict_atoms_is_atom_slice. Qed.
+Print Assumptions restrict_atoms_delegates.
+
+(* ---- a call that raises leaves every trajectory as it was (all operations except superpose, which centres its
+        target in place before the atom-count check can raise: see do_superpose) *)
+Theorem refused_call_changes_nothing : forall w o w' e,
+  match o with XBase (OSuperpose _ _ _) => False | _ => True end ->
+  xstep v_fix xv_fix w o = (w', RErr e) -> w' = w.
+Proof. exact xstep_refused_changes_nothing. Qed.
+Print Assumptions refused_call_changes_nothing.
